@@ -21,6 +21,10 @@ let () =
     | [p; key; off; _al], [out; clean] ->
       let p = bytes_of_hex p and key = bytes_of_hex key and out = bytes_of_hex out in
       let off = n_of_u64_string off in
+      if List.length p <= 80 then
+        add_coq_case (fun () -> Printf.sprintf "bytes_eqb (cipher %s %s %s) %s && Bool.eqb (c02_monitor %s %s %s %s) %s"
+          (cq_bytes p) (cq_bytes key) (cq_n off) (cq_bytes (cipher p key off))
+          (cq_bytes p) (cq_bytes key) (cq_n off) (cq_bytes out) (cq_bool (c02_monitor p key off out)));
       if not (c02_monitor p key off out) then Viol "Cipher output is not payload[i] XOR key[(offset+i) mod 4]"
       else if clean <> "1" then Viol "Cipher wrote outside the slice"
       else if cipher p key off <> out then Diff "model cipher differs"
